@@ -125,6 +125,9 @@ type Machine struct {
 	uniques        []uniqueEntry
 	uniquesInit    int
 	dom            *domState
+	solverWhat     map[string]int
+	pkgSeen        map[*ssa.Package]bool
+	entPrinted     int
 }
 
 type Options struct {
@@ -134,7 +137,8 @@ type Options struct {
 	Seed         int
 	IntMode      bool
 	NoRegion     bool
-	Merge        bool // merge the paths of scalar-returning callees into one result (off by default)
+	Merge        bool // merge the paths of every scalar-returning callee into one result (off by default)
+	NoMergeSingle bool // do not even merge calls whose arguments depend on a single 8-bit variable
 	FloatPolicy  string // "", "havoc", "exact"
 	Trace        bool
 	AppendSpare  int // append growth leaves 0..AppendSpare spare slots (nondeterministic)
@@ -160,6 +164,7 @@ type Stats struct {
 	Concretizations int
 	Assertions      int
 	DomainDecided   int
+	IntervalDecided int
 }
 
 type undoRec struct {
@@ -210,6 +215,7 @@ func NewMachine(p *Program, opts Options) (*Machine, error) {
 		memo:       map[string]*memoEntry{},
 		funcs:      map[*ssa.Function]int{},
 		dom:        newDomState(),
+		pkgSeen:    map[*ssa.Package]bool{},
 		intrinsicsUsed: map[string]int{},
 	}
 	if rp := p.SSAPkgs["runtime"]; rp != nil {
@@ -657,8 +663,11 @@ func (m *Machine) constValue1(c *ssa.Const) value {
 
 // callFunction runs fn with args (and closure env) to completion.
 func (m *Machine) callFunction(caller *frame, fn *ssa.Function, args []value, env []value) value {
-	if fn.Blocks == nil {
-		m.P.ensureBuilt(pkgOf(fn))
+	if pkg := pkgOf(fn); pkg != nil && !m.pkgSeen[pkg] {
+		// never look at fn.Blocks before the package build has finished
+		// (another worker may be building it right now)
+		m.P.ensureBuilt(pkg)
+		m.pkgSeen[pkg] = true
 	}
 	if fn.Name() == "init" && fn.Pkg != nil && fn.Synthetic != "" && fn.Pkg.Func("init") == fn && (caller != nil || m.inited[fn.Pkg]) && !m.runningInit[fn.Pkg] {
 		m.ensureInit(fn.Pkg)
